@@ -161,3 +161,80 @@ def find_case(lines, c):
         if j.get("c") == c:
             return j
     raise ToolError("disagreeing case not found among the exported ones")
+
+
+# ---------------------------------------------------------------------------------------------------------------
+def _known_ids(prop):
+    from common import known_findings
+    return {k["id"]: k for k in known_findings() if k["property"] == prop and k.get("status") == "known"}
+
+
+def _tval_eq(a, b):
+    keys = ("t", "n", "d", "v", "s")
+    return all((a or {}).get(k) in (b.get(k), None) or (a or {}).get(k) == b.get(k) for k in keys)
+
+
+def c05():
+    tier, seed = tier_seed()
+    t0 = time.time()
+    gh = build_harness()
+    known = _known_ids("C05")
+    cfgs = ["MCExprFlat2.cfg", "MCExprFlat3.cfg" if tier == "quick" else "MCExprFlat3Full.cfg", "MCExprLit.cfg", "MCExprTreeQuick.cfg" if tier == "quick" else "MCExprTree.cfg"]
+    with cf.ThreadPoolExecutor(max_workers=4) as ex:
+        futs = [ex.submit(export_cases, i, "MCExpr.tla", c, "CASE ", 4) for i, c in enumerate(cfgs)]
+        exports = [f.result() for f in futs]
+    log("C05: cases exported by TLC: %s" % {e["what"].split("/ ")[1]: e["n"] for e in exports})
+
+    def known_match(mm):
+        if mm["fam"] == "flat" and mm["route"] == "flat" and mm.get("amp") and "C05-amp-precedence" in known:
+            iw = mm.get("implWant") or {}
+            got = mm["got"]
+            val = {"i": str(iw.get("n")), "b": str(iw.get("v")).lower(), "s": iw.get("s")}.get(iw.get("t"))
+            if iw.get("t") == "r":
+                val = repr(iw["n"] / iw["d"]).rstrip("0").rstrip(".") if iw["d"] else None
+                try:
+                    if float(got) == iw["n"] / iw["d"]:
+                        return known["C05-amp-precedence"]["what"]
+                except ValueError:
+                    pass
+            if val is not None and got == val:
+                return known["C05-amp-precedence"]["what"]
+            # the implementation's grouping may also be ill-kinded where the table's is not (13 & 6 / 3)
+            if iw.get("t") in ("err", "skip") and got.startswith("error"):
+                return known["C05-amp-precedence"]["what"]
+        if mm["fam"] == "lit":
+            lit = mm["line"]["lit"]
+            if lit["base"] == 10 and lit["dot"] and not lit["frac"] and "C05-literal-dot-no-digits" in known:
+                return known["C05-literal-dot-no-digits"]["what"]
+            if lit["base"] == 10 and (lit["dot"] or lit["exp"]["has"]) and len(lit["int"]) > 1 and lit["int"][0] == 0 \
+                    and "C05-literal-leading-zero" in known:
+                return known["C05-literal-leading-zero"]["what"]
+        return None
+
+    total_stats, all_mms, samples = {}, [], []
+    for e in exports:
+        stats, mms, lines = replay_all(gh, "expr-replay", e, chunks=12)
+        for k, v in stats.items():
+            if isinstance(v, int):
+                total_stats[k] = total_stats.get(k, 0) + v
+        all_mms += mms
+        samples.append(json.loads(lines[(seed * 7919) % len(lines)]))
+    violations, unrep, known_hits = report("C05", tier, seed, gh, "expr-replay", all_mms,
+                                           key_of=lambda m: (m["fam"], m["route"], m["want"]["t"], m["got"][:30]),
+                                           case_of=lambda m: m["line"], known=known_match)
+    n = sum(e["n"] for e in exports)
+    cov = {"states": sum(e["distinct"] for e in exports), "transitions": sum(e["generated"] for e in exports),
+           "traces_validated_against_impl": n, "evaluations": total_stats.get("evaluations", 0), "distinct_nontrivial": n,
+           "model": "GrlExpr.tla via MCExpr.tla: %s; invariant AmpOnly (the two groupings differ only around &)" % ", ".join(cfgs),
+           "rule": "case = well-typed member of a bounded family: flat operator sequences of 2 and 3 operators over all 15 operators (grouping left to the "
+                   "parser, and fully parenthesised), depth-2 trees with negation, parenthesised sub-expressions, strings and failing operands (short "
+                   "circuit), number literals in every documented notation; each printed with varying spacing, comments and keyword case; the value "
+                   "is captured by a typed sink method so the kind is checked too. Every exported case is a distinct TLC state.",
+           "exhaustive": True, "samples": samples, "disagreements": len(all_mms), "known_finding_cases": known_hits,
+           "not_modelled": ["regular expressions (MatchString)", "string/array/map built-in functions and variadic fact methods (argument order): planned"]}
+    write_evidence("C05", tier, seed, "model_checking", cov, ["TLC and the Json module", "the harness's printers (flat / full / literal text) and typed sink",
+                   "values are dyadic rationals so that float64 arithmetic is exact; division by zero, overflow and NaN are outside the family"],
+                   violations, time.time() - t0)
+    log("C05: %d cases, %d evaluations, %d disagreements (%d known-finding cases), %d violations" % (
+        n, total_stats.get("evaluations", 0), len(all_mms), sum(known_hits.values()), violations))
+    return 1 if violations else 2 if unrep else 0
